@@ -15,7 +15,7 @@ def build_nolog():
     return os.path.join(NOLOG, "target", "verif", "mtnolog")
 
 
-def validate_api(trace, wd, max_rounds=10, tag="trace"):
+def validate_api(trace, wd, max_rounds=10, tag="trace", prop=None, _second=True):
     core.lint_trace_file(trace)
     cur = trace
     rej = []
@@ -57,6 +57,19 @@ def validate_api(trace, wd, max_rounds=10, tag="trace"):
         core.write_lines(cur, cl)
     else:
         core.log("stopped after %d rejections; the rest of the API trace was not validated" % max_rounds)
+        # rejections of one kind must not starve another: when none of them speaks about `prop`, the events of the kind that
+        # was rejected are taken out and the rest of the history is judged (C17: all queries; C18: queries on objects that
+        # were not deserialised)
+        if prop and _second and not any(attribute(x["event"]) == prop for x in rej):
+            cl = [json.loads(l) for l in open(trace) if l.strip()]
+            des = {e["sid"] for e in cl if e["ev"] == "De"}
+            keep = [e for e in cl if not (e["ev"] == "Query" and (prop == "C17" or e.get("sid") not in des))]
+            cut = os.path.join(wd, "%s_noquery.ndjson" % tag)
+            core.write_lines(cut, keep)
+            core.log("second pass without the %d query events of the rejected kind" % (len(cl) - len(keep)))
+            rej2, st2 = validate_api(cut, wd, max_rounds, tag + "_nq", prop, _second=False)
+            rej += rej2
+            states += st2
     return rej, states
 
 
@@ -128,7 +141,7 @@ def run(prop, tier, seed, replay=None):
                  "threads": 8 if tier == "quick" else 16, "calls": 1500 if tier == "quick" else 10000})
     if s["counters"].get("process_nolog", 0) != 1 or s["counters"].get("process_second-process", 0) != 1:
         raise core.ToolError("the second process / the nolog binary did not run: %s" % s["notes"])
-    rej, tstates = validate_api(trace, wd)
+    rej, tstates = validate_api(trace, wd, prop=prop)
     violations = list(s["violations"])
     # 3. mode R: histories generated by TLC from Api.tla (-simulate), executed on real objects, validated again
     hpath = os.path.join(wd, "histories.ndjson")
@@ -142,7 +155,7 @@ def run(prop, tier, seed, replay=None):
     violations += hs["violations"]
     if hs["nontrivial"] < 20:
         raise core.ToolError("vacuity guard: only %d TLC-generated histories executed" % hs["nontrivial"])
-    hrej, hstates = validate_api(htrace, os.path.join(wd), tag="hist")
+    hrej, hstates = validate_api(htrace, os.path.join(wd), tag="hist", prop=prop)
     rej = rej + hrej
     tstates += hstates
     for x in rej:
